@@ -88,6 +88,17 @@ def mg_reference(v):
     return exit_eq and out_ok and err_ok
 
 
+def _consistent(val):
+    """Equal strings contain each other: valuations that contradict this
+    describe no run."""
+    for k, v in val.items():
+        if k[0] == 'eq' and v:
+            for a, b in ((k[1], k[2]), (k[2], k[1])):
+                if val.get(('in', a, b)) is False:
+                    return False
+    return True
+
+
 MG_REF_ATOMS = [
     ('eq', 'golden.exit', 'run.exit'),
     ('truthy', 'ignore_out'),
@@ -112,6 +123,8 @@ def rule_r1(chk, prog):
     n = 0
     bad = []
     for val, res in bf.table(extra_atoms=MG_REF_ATOMS):
+        if not _consistent(val):
+            continue
         n += 1
         ref = mg_reference(val)
         if bool(res) != bool(ref):
@@ -694,12 +707,12 @@ def run(tier):
             'RunInfo fields exit/out/err carry the child\'s status and '
             'decoded streams',
         ])
-    rule_r1(chk, prog)
-    rule_r2(chk, prog)
-    rule_r3(chk, prog)
-    rule_r4(chk, prog)
-    rule_r5(chk, prog)
-    rule_r6(chk, prog)
+    chk.guard(rule_r1, chk, prog)
+    chk.guard(rule_r2, chk, prog)
+    chk.guard(rule_r3, chk, prog)
+    chk.guard(rule_r4, chk, prog)
+    chk.guard(rule_r5, chk, prog)
+    chk.guard(rule_r6, chk, prog)
     extra = None
     if tier == 'thorough':
         from .. import selftest
